@@ -362,3 +362,45 @@ func VH_C07_compiledDeferredCall() {
 	vhAssert(rec == interface{}("outer"), "recover() in a helper is ignored also after a compiled deferred call")
 	vhReach("end")
 }
+
+// an interrupt that arrives while a normally returning function runs its deferred calls (compiled functions such
+// as mu.Unlock, or interpreted ones) is delivered when the function is left: it is not lost
+func VH_C13_interrupt_duringDeferredCall() {
+	run := &Run{IrGlobals: &IrGlobals{}}
+	env := &Env{Run: run}
+	n := vhPick("plain statements in the body", 4)
+	ndefers := 1 + vhPick("deferred calls", 2)
+	at := vhPick("deferred call during which Ctrl-C arrives", 2)
+	vhAssume(at < ndefers)
+	interpreted := vhBool("the deferred functions are interpreted")
+	ran := 0
+	list := make([]Stmt, 0, n+ndefers)
+	for i := 0; i < ndefers; i++ {
+		i := i
+		body := func() {
+			// defers run in reverse order of installation
+			if ndefers-1-i == at {
+				run.interrupt()
+			}
+			ran++
+		}
+		if interpreted {
+			list = append(list, vhDeferStmt(vhInterp(run, func(*Env) { body() })))
+		} else {
+			list = append(list, vhDeferStmt(body))
+		}
+	}
+	for i := 0; i < n; i++ {
+		list = append(list, vhPlainStmt(func(*Env) {}))
+	}
+	code := &Code{List: list, DebugPos: make([]token.Pos, len(list)), WithDefers: true}
+	f := code.Exec()
+	caller := &Env{}
+	run.CurrEnv = caller
+	rec := vhRunRecover(func() { f(env) })
+	vhAssert(ran == ndefers, "every deferred call runs")
+	vhAssert(rec == interface{}(base.SigInterrupt), "the interrupt is delivered when the function is left")
+	vhAssert(run.Signals.Async == base.SigNone && run.Signals.Sync == base.SigNone, "the interrupt is consumed")
+	vhAssert(run.CurrEnv == caller, "caller frame restored")
+	vhReach("end")
+}
